@@ -130,6 +130,10 @@ def _changes(node) -> list[tuple[str, dict[str, Any], bool]]:
     if cls == "VNonCmp":
         out.append(("note", {"note": "changed"}, False))
         out.append(("v+note", {"v": node.v + 1, "note": "both"}, True))
+    if cls == "VTyped":
+        out.append(("i", {"i": 41}, True))
+        out.append(("nc", {"nc": 5}, False))
+        out.append(("t", {"t": (9,)}, True))
     if cls == "VRich":
         out.append(("hidden", {"hidden": "changed"}, False))
         out.append(("s+i", {"s": "new", "i": 77}, True))
@@ -162,6 +166,8 @@ REPLACE_BASES = [
     R("VInh", {"v": 1}, "b", first=R("VLeaf", {"v": 2}), items=(), one=R("VLeaf", {"v": 5}), extra=R("VLeaf", {"v": 6})),
     R("VMany", items=(R("VLeaf", {"v": 7}), R("VLeaf", {"v": 7}, "a"))), R("VNonInit", {"v": 3}),
     R("VMixed", {"v": 1}, first=R("VReq", child=R("VLeaf", {"v": 2})), items=(), one=None),
+    # property values that are containers (a mapping, nested tuples, a frozenset): untouched ones stay the very same objects
+    R("VTyped", {"a": {"k": [1, 2], "m": {"n": 3}}, "t": (7, 8), "nc": 4}, "a"),
 ]
 
 
